@@ -95,6 +95,8 @@ pub fn run(header: &Scenario, src: Source, keep_trace: bool, final_check: bool) 
     if final_check && w.aborted.is_none() && !w.faulty {
         w.op_idx = ops_done.len();
         w.final_close_and_check();
+    } else if final_check && !w.faulty && w.aborted.as_deref().map_or(false, |a| a != "panic" && a != "fault fired") {
+        w.post_mortem();
     }
     let st = disk.st.borrow();
     if st.stats.multi_block_calls > 0 {
@@ -127,6 +129,45 @@ pub fn run_seed(prop: &str, seed: u64) -> RunResult {
 }
 
 impl<'a> World<'a> {
+    /// A call gave an answer the model does not accept and the history was stopped there (the disagreement itself
+    /// belongs to whichever property owns that answer). What the call did to the medium is still a structural
+    /// matter: close everything through the library and run the independent fsck on the raw medium, without
+    /// consulting the model. Never reached on a tree where every answer is accepted.
+    pub fn post_mortem(&mut self) {
+        self.probes.hit("post_mortem_fsck");
+        let files: Vec<embedded_sdmmc::RawFile> = self.fslots.iter().filter_map(|s| s.cur.as_ref().map(|x| x.0)).collect();
+        let dirs: Vec<embedded_sdmmc::RawDirectory> = self.dslots.iter().filter_map(|s| s.cur.as_ref().map(|x| x.0)).collect();
+        let vols: Vec<embedded_sdmmc::RawVolume> = self.vslots.iter().filter_map(|s| s.cur.as_ref().map(|x| x.0)).collect();
+        let r = self.call(|fs| {
+            for f in files {
+                let _ = fs.close_file(f, 0);
+            }
+            for d in dirs {
+                let _ = fs.close_dir(d, 0);
+            }
+            for v in vols {
+                let _ = fs.close_volume(v, 0);
+            }
+        });
+        if r.is_err() {
+            return;
+        }
+        let mut found: Vec<(String, String)> = Vec::new();
+        for v in &self.vols {
+            let g = v.geom.clone();
+            self.disk.with_image(|img| {
+                let fat = crate::fatspec::FatView::load(img, &g, 0);
+                let tree = crate::fatspec::walk(img, &g, &fat, &crate::fatspec::FsckOpts::default());
+                for p in &tree.problems {
+                    found.push((p.kind.to_string(), p.detail.clone()));
+                }
+            });
+        }
+        for (k, d) in found {
+            self.violate("C03", &format!("post-mortem-fsck/{}", k), "", format!("{} (after everything was closed following a call whose answer the model does not accept)", d));
+        }
+    }
+
     /// End of run: re-read every open file in full, close everything, then the remount oracles.
     pub fn final_close_and_check(&mut self) {
         // full re-read of open files (C01)
